@@ -1,10 +1,10 @@
 (** Case type and correspondence checks for the ceremony domain (CTAP2-level operations). *)
-From PK Require Import Lib.Check.
+From PK Require Import Lib.Check Lib.Sha256 Lib.Hmac.
 From PK Require Export Auth.Replay.
 Open Scope N_scope.
 
-(** SHA-256 of the RP IDs occurring in a case, supplied by the driver (hashlib) until it is replaced by
-    the Gallina SHA-256; the implementation's own rpIdHash is compared against it as well. *)
+(** SHA-256 of the RP IDs occurring in a case as computed by the driver (hashlib): cross-checked against
+    the Gallina SHA-256, which is what the model uses. *)
 Definition hash_table := list (bytes * bytes).
 Fixpoint lookup_hash (t : hash_table) (d : bytes) : bytes :=
   match t with [] => [] | (k, v) :: r => if beq k d then v else lookup_hash r d end.
@@ -51,19 +51,19 @@ Definition agree (cs : ccase) : bool :=
       | RDone (Ok r) _, Finished (Ok o) =>
           auth_data_eqb (mr_auth_data r) (mr_auth_data (mo_fields o))
           && opt_eqb prf_make_eqb (mr_prf r) (mr_prf (mo_fields o))
-          && beq (ad_bytes (lookup_hash ht) (mr_auth_data r)) (mo_ad_bytes o)
+          && beq (ad_bytes sha256 (mr_auth_data r)) (mo_ad_bytes o) && forallb (fun kv => beq (sha256 (fst kv)) (snd kv)) ht
       | RDone (Err e) _, Finished (Err e') => e =? e'
       | RLogShort _ _, Cancelled => true
       | _, _ => false
       end
   | CGet c q log qs ht impl =>
-      match replay (get_assertion (ad_bytes (lookup_hash ht)) c q) log qs 0, impl with
+      match replay (get_assertion (ad_bytes sha256) c q) log qs 0, impl with
       | RDone (Ok r) _, Finished (Ok o) =>
           let f := go_fields o in
           beq (gr_cred_id r) (gr_cred_id f) && auth_data_eqb (gr_auth_data r) (gr_auth_data f)
           && beq (gr_signature r) (gr_signature f) && opt_eqb beq (gr_user_handle r) (gr_user_handle f)
           && opt_eqb prf_values_eqb (gr_prf r) (gr_prf f)
-          && beq (ad_bytes (lookup_hash ht) (gr_auth_data r)) (go_ad_bytes o)
+          && beq (ad_bytes sha256 (gr_auth_data r)) (go_ad_bytes o) && forallb (fun kv => beq (sha256 (fst kv)) (snd kv)) ht
       | RDone (Err e) _, Finished (Err e') => e =? e'
       | RLogShort _ _, Cancelled => true
       | _, _ => false
@@ -92,5 +92,55 @@ Definition c04_ok (cs : ccase) : bool :=
       c04_judge_mc (mc_opts q) (run_monitor (c04_step (mc_opts q)) c04_init log) (outcome_result mo_fields impl)
   | CGet c q log _ _ impl =>
       c04_judge_ga (ga_opts q) (run_monitor (c04_step (ga_opts q)) c04_init log) (outcome_result go_fields impl)
+  | CInfo _ _ _ => true
+  end.
+
+(** every HMAC the model ceremony asks for (with the secret and salt the model selects) was answered
+    by the implementation with the HMAC-SHA-256 of exactly that secret and salt *)
+Definition hmac_events_ok (events : list (eff * answer)) : bool :=
+  forallb (fun ev => match ev with
+                     | (EHmac k s, ABytes o) => beq (hmac_sha256 k s) o
+                     | _ => true
+                     end) events.
+
+Definition prf_ok (cs : ccase) : bool :=
+  match cs with
+  | CMake c q log qs _ (Finished (Ok _)) =>
+      match replay (make_credential c q) log qs 0 with RDone _ ev => hmac_events_ok ev | _ => true end
+  | CGet c q log qs _ (Finished (Ok _)) =>
+      match replay (get_assertion (ad_bytes sha256) c q) log qs 0 with RDone _ ev => hmac_events_ok ev | _ => true end
+  | _ => true
+  end.
+
+(** *** store discipline (C02 save clauses, C05, C07, C08, C11) on the implementation's log.
+    The implementation's log has no signature event (signing is not a trait call): for an Ok assertion
+    one is synthesised from the observation - the key of the credential the lookup returned first, the
+    raw authenticator data bytes the implementation returned followed by the client data hash - so
+    that the same judgement applies; the signature itself is verified by the driver's independent
+    ECDSA verifier. *)
+From PK Require Import Auth.StoreFacts.
+
+Definition first_found (log : trace) : option passkey :=
+  match log with
+  | (EFind _ _, AFind r) :: _ => match first_credential r with Ok p => Some p | Err _ => None end
+  | _ => None
+  end.
+
+Definition store_ok (cs : ccase) : bool :=
+  match cs with
+  | CMake c q log _ _ impl =>
+      j_make c q (filter (fun ea => storeI (fst ea)) log) (outcome_result mo_fields impl)
+  | CGet c q log _ _ impl =>
+      let evs := filter (fun ea => storeI (fst ea)) log in
+      let synth :=
+        match impl, first_found log with
+        | Finished (Ok o), Some p =>
+            match private_key (pk_key p) with
+            | Ok d => [(ESign d (go_ad_bytes o ++ ga_cdh q), ABytes (gr_signature (go_fields o)))]
+            | Err _ => []
+            end
+        | _, _ => []
+        end in
+      j_get (ad_bytes sha256) q (evs ++ synth) (outcome_result go_fields impl)
   | CInfo _ _ _ => true
   end.
